@@ -8,11 +8,61 @@ class Unknown(Exception):
     pass
 
 
+_FACTS = [None]
+
+
+def set_facts(facts):
+    """Enable evaluation of calls to crate-local pure functions (their MIR is walked concretely)."""
+    _FACTS[0] = facts
+
+
+def eval_local_fn(facts, name, argvals, depth=0):
+    from .expr import Exprs
+    if depth > 4:
+        raise Unknown(("depth", name))
+    b = facts.body(name)
+    if b.loops():
+        raise Unknown(("loop", name))
+    ex = Exprs(b)
+    env = {("arg", i + 1): v for i, v in enumerate(argvals)}
+    rb, path = walk(b, ex, env)
+    if rb is None:
+        raise Unknown(("diverges", name))
+    return path_return_value(b, ex, path, env)
+
+
+def path_return_value(b, ex, path, env):
+    val = None
+    found = False
+    for pb in path:
+        for i, st in enumerate(b.stmts(pb)):
+            if st["k"] == "assign" and st["place"]["local"] == 0 and not st["place"]["proj"]:
+                val = eval_expr(ex.rvalue(st["rv"], (pb, i)), env)
+                found = True
+        t = b.term(pb)
+        if t["k"] == "call" and t["dest"]["local"] == 0 and not t["dest"]["proj"]:
+            val = eval_expr(ex.call_expr(t, b.term_loc(pb)), env)
+            found = True
+    if not found:
+        raise Unknown(("no return value",))
+    return val
+
+
 def eval_expr(e, env):
     """env: dict expr -> python value.  Raises Unknown when a needed leaf has no value."""
     if e in env:
         return env[e]
     k = e[0]
+    if k == "field":
+        base = eval_expr(e[1], env)
+        if isinstance(base, tuple):
+            try:
+                return base[int(e[2])]
+            except (ValueError, IndexError):
+                raise Unknown(e)
+        raise Unknown(e)
+    if k == "agg" and e[1] in ("board::Point", "tuple"):
+        return tuple(eval_expr(x, env) for x in e[3])
     if k == "const":
         return e[1]
     if k == "float":
@@ -82,6 +132,8 @@ def eval_expr(e, env):
             import math
             a = args[0]
             return math.floor(abs(a) + 0.5) * (1 if a >= 0 else -1)
+        if _FACTS[0] is not None and _FACTS[0].has_body(name):
+            return eval_local_fn(_FACTS[0], name, args)
         raise Unknown(e)
     if k in ("deref", "ref"):
         return eval_expr(e[1], env)
